@@ -64,6 +64,35 @@ func lineInterior(in []byte, off int) bool {
 func runC16(c *Ctx) []Violation {
 	w := pickWorld(c, worldOpts{CorpusWeight: 1, GenWeight: 3, Encodings: true})
 	env := baseEnv(c)
+	if c.T.Chance("c16.damaged-schema", 1, 6) {
+		// "all inputs of all formats" are read under whatever schema NewSchema accepts: the schema of
+		// this case carries a structure-level storage fault (the kinds C03 uses) that NewSchema lets
+		// through - odd row indices, occurrence bounds, delimiters, xpaths. The reference is the
+		// fault-free run under the same damaged schema; the record map no longer describes what a
+		// record is, so the clause that counts records (late) does not apply.
+		for try := 0; try < 4; try++ {
+			ds, d, kinds := simio.DamageJSON(c.T, w.Schema)
+			if len(d) == 0 {
+				continue
+			}
+			env.Apply()
+			if s, es, ps := run.NewSchema("sim-schema", ds); s == nil || es != "" || ps != "" {
+				c.Count("schema-damage.rejected-by-NewSchema", 1)
+				continue
+			}
+			ww := w.Clone()
+			ww.Schema, ww.Recs = ds, nil
+			ww.Name = w.Name + " + schema damage"
+			w = ww
+			for _, k := range kinds {
+				c.Count("fault.schema."+k, 1)
+			}
+			c.Count("schema-damage.accepted", 1)
+			c.Note("schema storage faults (accepted by NewSchema): %v", d)
+			c.Note("damaged schema: %s", clipS(string(ds), 4000))
+			break
+		}
+	}
 	plan := simio.DrawPlan(c.T, w.Input)
 	c.Note("world %s (format %s, input %d bytes); env %s", w.Name, w.Format, len(w.Input), env)
 	c.Note("delivery plan: %s", plan.String())
@@ -113,6 +142,9 @@ func c16Case(c *Ctx, w *world.World, env run.Env, plan simio.Plan, fault simio.F
 	ref := run.Drive(w, rrd, run.Opts{})
 	rk := ref.Keys()
 	c.Events += int64(rrd.Stats.Reads + len(ref.Entries))
+	if ref.HitReadLimit || ref.SchemaPanic != "" || ref.TransformPanic != "" {
+		return nil // a fault-free run that panics or does not end is C03's subject, not a reader failure
+	}
 
 	fplan := plan
 	fplan.Fault = fault
